@@ -21,7 +21,7 @@ class MultiHarness(symex.Harness):
     message; ans[o][q] is the answer of operator o to query q (True/False), or the tuple
     ('exc', type, msg)."""
 
-    def __init__(self, label, operators, N, M, nleaves, queries, prop, require_accepted=True, max_decisions=6000):
+    def __init__(self, label, operators, N, M, nleaves, queries, prop, require_accepted=True, max_decisions=6000, layers=None):
         ops.setup()
         self.label, self.operators, self.N, self.M = label, operators, N, M
         self.queries, self.prop = queries, prop
@@ -31,6 +31,9 @@ class MultiHarness(symex.Harness):
         A, B, _, _ = self.sb.tables()
         self.spec = specs.BaseSpec(A, B)
         self.max_decisions = max_decisions
+        self.layers = layers          # slice: conditional i sits in tolerance layer layers[i]
+        if layers:
+            self.label += " slice-layers=%s" % (layers,)
         self.reset()
 
     def reset(self):
@@ -51,7 +54,11 @@ class MultiHarness(symex.Harness):
 
     def mk_engine(self):
         tt.set_universe(self.N)
-        return symex.Engine(max_decisions=self.max_decisions)
+        pre = []
+        if self.layers:
+            for i, L in enumerate(self.layers):
+                pre.append(Z.And(self.spec.placed[i], self.spec.layer[i] == specs.iv(L)))
+        return symex.Engine(assumptions=pre, max_decisions=self.max_decisions)
 
     def leaf(self, name):
         if name.startswith("X"):
@@ -76,10 +83,15 @@ class MultiHarness(symex.Harness):
         truth table, possibly spelled differently (o['shapes'] uses only table-preserving
         shapes such as 'and_top', 'or_bot', 'top_and', 'dneg')."""
         shp = (o.get("shapes") or {}).get((which, pos))
+        src = pos
+        if (o.get("dupshapes") or {}).get((which, pos)) == "same_as_0":
+            src = 0                   # conditional `pos` is a copy of conditional 0
         if not shp:
+            if src != pos:
+                return tt.Leaf("%s0" % which, {"A": self.sb.A, "B": self.sb.B}[which][0])
             return self.sb.side(which, pos)
-        tab = {"A": self.sb.A, "B": self.sb.B}[which][pos]
-        name = "%s%d" % (which, pos)
+        tab = {"A": self.sb.A, "B": self.sb.B}[which][src]
+        name = "%s%d" % (which, src)
         if shp == "dneg":
             return tt.Not(tt.Not(tt.Leaf(name, tab)))
         if shp == "and_self":
